@@ -208,7 +208,7 @@ def move_staticmethod_static_scope(source: str, preserve: Collection[str]) -> st
                 ],
                 type_params=[],
                 returns=funcdef.returns,
-                lineno=classdef.lineno - 1,
+                lineno=max(classdef.lineno - 1, 1),  # line 0 does not exist
                 col_offset=classdef.col_offset,
             )
             yield funcdef, None, transaction
